@@ -5,6 +5,7 @@ import argparse
 import ast
 import collections
 import io
+import itertools
 import logging
 import os
 import re
@@ -198,7 +199,15 @@ def format_code(
             for funcdef in core.filter_nodes(node.body, fdef_types)
         }
         assignments = {node.id for node in parsing.iter_assignments(module)}
-        preserve = set(preserve) | defs | class_funcs | assignments
+        class_members = {  # Methods and attributes of classes in module scope, by their own name
+            member
+            for node in core.filter_nodes(module.body, ast.ClassDef)
+            for member in itertools.chain(
+                (funcdef.name for funcdef in core.filter_nodes(node.body, fdef_types)),
+                (name.id for name in parsing.iter_assignments(node)),
+            )
+        }
+        preserve = set(preserve) | defs | class_funcs | assignments | class_members
 
     if minimum_indent == 0:
         source = fixes.add_missing_imports(source)
